@@ -89,7 +89,7 @@ fn signal_contract<const CLONES: usize>() {
     let first = despawner.prepare(e);
     let bystander = despawner.prepare(other);
     assert!(first.entity() == e, "AutoDespawner::prepare: the signal stands for the prepared entity");
-    let mut held: [Option<AutoDespawnSignal>; 3] = [None, None, None];
+    let mut held: [Option<AutoDespawnSignal>; 5] = [None, None, None, None, None];
     let mut i = 1;
     while i < CLONES { held[i] = Some(first.clone()); i += 1; }
     held[0] = Some(first);
@@ -144,3 +144,5 @@ fn gc_contract<const DA: bool, const DB: bool>() {
 #[kani::proof] #[kani::unwind(4)] fn k_autodespawn_gc_first_gone() { gc_contract::<true, false>(); }
 //# id=K.autodespawn.gc.none_gone props=C10,C07 strength=bounded shape="2 pending requests; both entities alive" tier=off fns=garbage_collect_entities,AutoDespawner::try_recv
 #[kani::proof] #[kani::unwind(4)] fn k_autodespawn_gc_none_gone() { gc_contract::<false, false>(); }
+//# id=K.autodespawn.signal.c5 props=C10,C07 strength=bounded shape="5 clones dropped one by one; entity id symbolic" tier=thorough fns=AutoDespawner::prepare,AutoDespawner::try_recv,AutoDespawnSignal::clone,AutoDespawnSignalInner::drop
+#[kani::proof] #[kani::unwind(8)] fn k_autodespawn_signal_c5() { signal_contract::<5>(); }
